@@ -291,7 +291,12 @@ fn substitute_accept(data: &mut Vec<u8>, accept: &str) {
             let c = data[i + 8];
             let mut a = accept.as_bytes().to_vec();
             if nn < a.len() {
-                a[nn] = if a[nn] == c { if c == b'A' { b'B' } else { b'A' } } else { c };
+                if c == b'^' {
+                    // flip the ASCII case of the character (a digit/symbol becomes a different symbol)
+                    a[nn] = if a[nn].is_ascii_alphabetic() { a[nn] ^ 0x20 } else if a[nn] == b'A' { b'B' } else { b'A' };
+                } else {
+                    a[nn] = if a[nn] == c { if c == b'A' { b'B' } else { b'A' } } else { c };
+                }
             }
             data.splice(i..i + 28, a.iter().copied());
             i += accept.len();
